@@ -476,6 +476,21 @@ DynArray* dyn_array_clone(DynArray* arr) {
         return NULL;
     }
     
+    /* Struct arrays start with elem_size 0 / data NULL (allocation is delayed
+     * until the first push): give the clone the source's element size and a
+     * block of its own before copying into it. */
+    if (arr->elem_type == ELEM_STRUCT) {
+        if (arr->length == 0 || arr->data == NULL) {
+            return new_arr;
+        }
+        new_arr->elem_size = arr->elem_size;
+        new_arr->data = malloc(new_arr->capacity * new_arr->elem_size);
+        if (new_arr->data == NULL) {
+            gc_release(new_arr);
+            return NULL;
+        }
+    }
+
     /* Reserve capacity and copy data */
     dyn_array_reserve(new_arr, arr->length);
     memcpy(new_arr->data, arr->data, arr->length * arr->elem_size);
